@@ -110,3 +110,32 @@ Example C03_bytes_example :
   let tr := w_trace (snd (steps w0 [AConnect [104%N] 21%N None; ADownload [102%N] None None])) in
   sink_bytes (ios tr) = [1;2;3;4;5;6]%N /\ net_in_bytes (ios tr) = [1;2;3;4;5;6]%N.
 Proof. exact bytes_example. Qed.
+
+(* ---- the sink over every call, every state, either type, every server (Flush_Global.v) ---- *)
+From LibFtp Require Flush_Global.
+
+(* what a call does to the caller's sink is accepted by the automaton Open -flush-> Flushed in which writes are allowed only
+   while Open: writes, then at most one flush, then nothing *)
+Theorem C03_sink_written_then_flushed_once : forall a w, Flush_Global.sink_ok a ->
+  exists tr st', w_trace (snd (step w a)) = w_trace w ++ tr /\
+    Flush_Global.chk Flush_Global.Open (Bytes_Global.ios tr) = Some st'.
+Proof. exact Flush_Global.step_sink_written_then_flushed_once. Qed.
+Print Assumptions C03_sink_written_then_flushed_once.
+
+Theorem C03_flushed_at_most_once : forall a w tr, Flush_Global.sink_ok a ->
+  w_trace (snd (step w a)) = w_trace w ++ tr -> (count_ev is_flush (Bytes_Global.ios tr) <= 1)%nat.
+Proof. exact Flush_Global.flushed_at_most_once. Qed.
+Print Assumptions C03_flushed_at_most_once.
+
+Theorem C03_sink_untouched_after_the_flush : forall a w tr pre post, Flush_Global.sink_ok a ->
+  w_trace (snd (step w a)) = w_trace w ++ tr ->
+  Bytes_Global.ios tr = pre ++ IoSinkFlush :: post -> count_ev Flush_Global.is_sinkop post = O.
+Proof. exact Flush_Global.sink_untouched_after_the_flush. Qed.
+Print Assumptions C03_sink_untouched_after_the_flush.
+
+Example C03_example_flush :
+  let w0 := init_world (mkConfig Passive true TBinary false false) Bytes_Global.bytes_script in
+  let tr := w_trace (snd (steps w0 [AConnect [104] 21 None; ADownload [102] None None])) in
+  Bytes_Global.ios tr = [IoNetRead [1;2]; IoSinkWrite [1;2]; IoNetRead [3]; IoSinkWrite [3]; IoNetRead [4;5;6]; IoSinkWrite [4;5;6]; IoSinkFlush]
+  /\ Flush_Global.chk Flush_Global.Open (Bytes_Global.ios tr) = Some Flush_Global.Flushed.
+Proof. exact Flush_Global.flush_example. Qed.
